@@ -304,6 +304,25 @@ fn check_matrix(v: &Value, prior: &Prior, broken: &Option<(String, Option<String
     let (a, b) = reparse(v, &lp, &llp);
     ensure_eq!(a, Ok(dbg.clone()), "roundtrip/lossy", "from_paragraph(to_paragraph(x)) on the lossy back-end");
     ensure_eq!(b, Ok(dbg.clone()), "roundtrip/lossless", "from_paragraph(to_paragraph(x)) on the lossless back-end");
+    // the paragraphs are real paragraphs: printed and read again they still give the value back
+    if !want.is_empty() {
+        let t_ll = llp.to_string();
+        match LLP::from_str(&t_ll) {
+            Ok(re) => {
+                let (_, rb) = reparse(v, &LP { fields: vec![] }, &re);
+                ensure_eq!(rb, Ok(dbg.clone()), "to-paragraph-print-reread/lossless", "the lossless to_paragraph prints {:?}, which does not read back as the value", t_ll);
+            }
+            Err(e) => return fail("to-paragraph-print-reread/lossless", format!("the lossless to_paragraph prints {:?}, which does not parse: {}", t_ll, e)),
+        }
+        let t_l = lp.to_string();
+        match LP::from_str(&t_l) {
+            Ok(re) => {
+                let (ra, _) = reparse(v, &re, &LLP::new());
+                ensure_eq!(ra, Ok(dbg.clone()), "to-paragraph-print-reread/lossy", "the lossy to_paragraph prints {:?}, which does not read back as the value", t_l);
+            }
+            Err(e) => return fail("to-paragraph-print-reread/lossy", format!("the lossy to_paragraph prints {:?}, which does not parse: {}", t_l, e)),
+        }
+    }
     // update of a prior paragraph on both back-ends
     let ptext = prior.text();
     // keep the whole document: comment lines in front of the first field belong to it, not to the paragraph node
@@ -546,6 +565,9 @@ pub enum Case {
 }
 
 fn gen_string(t: &mut Tape) -> String {
+    if t.chance(1, 8) {
+        return String::new();
+    }
     // representable through both back-ends and through printing: non-empty lines without leading/trailing whitespace
     let mut lines = vec![crate::gen::doc::gen_line(t, false, false, true)];
     while t.more(lines.len(), 1, 3, 1, 4) {
